@@ -140,6 +140,10 @@ Definition atoi (s : bytes) : option Z :=
     end
   end.
 
+(* strings.HasSuffix: len(s) >= len(suffix) && s[len(s)-len(suffix):] == suffix *)
+Definition has_suffix (s suffix : bytes) : bool :=
+  (length suffix <=? length s)%nat && bytes_eqb (skipn (length s - length suffix) s) suffix.
+
 (* nextFieldBySpace: (value, remaining part not including the space) *)
 Definition next_field_by_space (s : bytes) : option (bytes * bytes) :=
   match index_byte s 32 with
@@ -150,7 +154,6 @@ Definition next_field_by_space (s : bytes) : option (bytes * bytes) :=
 (* ---------- Parse ---------- *)
 
 (* Panic sites *)
-Definition site_pri_suffix : N := 1.     (* val[len(val)-2:] *)
 Definition site_pri_digits : N := 2.     (* val[1 : len(val)-2] *)
 Definition site_facility : N := 3.       (* FacilityNames[facility] *)
 Definition site_level : N := 4.          (* levelMapping[severity] *)
@@ -170,10 +173,7 @@ Definition parse (cfg : config) (cnt : counters) (input : bytes) : outcome (opti
   match next_field_by_space remaining with
   | None => malformed
   | Some (val, next) =>
-  match go_slice_from val (Z.of_nat (length val) - 2) with
-  | None => (Panic site_pri_suffix, cnt)
-  | Some suffix =>
-  if negb (bytes_eqb suffix [62; 49]) then malformed else          (* != ">1" *)
+  if negb (has_suffix val [62; 49]) then malformed else             (* !strings.HasSuffix(val, ">1") *)
   match go_slice val 1 (Z.of_nat (length val) - 2) with
   | None => (Panic site_pri_digits, cnt)
   | Some pri =>
@@ -202,14 +202,23 @@ Definition parse (cfg : config) (cnt : counters) (input : bytes) : outcome (opti
   match (if overflow then go_slice_to r6 (max_msg cfg) else Some r6) with
   | None => (Panic site_cut, cnt1)
   | Some msg =>
-  let msg := if max_rec cfg <=? N.of_nat rawlen then clean_utf8 msg else msg in
+  let truncated := overflow in
+  let msg := if truncated || (max_rec cfg <=? N.of_nat rawlen) then clean_utf8 msg else msg in
   let rec := {| f_facility := facility_name; f_level := severity_name;
                 f_time := v_time; f_host := v_host; f_app := v_app; f_pid := v_pid;
                 f_source := v_source; f_extradata := v_extradata; f_log := msg;
                 raw_length := rawlen;
                 unescaped := match index_byte msg 10 with Some _ => true | None => false end |} in
   (Ok (Some rec), count_pass cnt1 rawlen)
-  end end end end end end end end end end end end end.
+  end end end end end end end end end end end end.
+
+(* A sequence of messages through one parser instance: the counters are the only state
+   that Parse carries from one call to the next. *)
+Fixpoint parse_stream (cfg : config) (cnt : counters) (msgs : list bytes) : list (outcome (option record) * counters) :=
+  match msgs with
+  | [] => []
+  | m :: ms => let r := parse cfg cnt m in r :: parse_stream cfg (snd r) ms
+  end.
 
 (* ---------- correspondence entry point ----------
    kind 0: sargs = input :: mapping (no further item = default mapping, else the level mapping),
@@ -217,6 +226,11 @@ Definition parse (cfg : config) (cnt : counters) (input : bytes) : outcome (opti
            (the last one only selects the allocator path in Go)
    kind 1: sargs = [head; unit; tail], zargs = [maxMsg; maxRec; minPool; reps]:
            input = head ++ unit^reps ++ tail, default mapping; the log field is printed as a digest
+   kind 2: a sequence of messages handed one after the other to ONE new parser (default mapping):
+           sargs = [head; unit; tail; m1; m2; ...], zargs = [maxMsg; maxRec; minPool; reps; i1; i2; ...];
+           message table T0 = head ++ unit^reps ++ tail, Tk = mk; the sequence is T(i1), T(i2), ...;
+           output "seq:" + the results joined by "/", each with the counters accumulated so far and
+           the log field as a digest
    output: "cfgerr" | "drop:<counters>" | "panic:<counters>" |
            "ok:<hex facility>,<hex level>,<hex time>,...,<hex extradata>,<log>,<0|1 unescaped>;<counters>"
            counters = passed,passedBytes,dropped,droppedBytes,overflow,overflowBytes (increments)
@@ -241,6 +255,8 @@ Definition digest (s : bytes) : bytes :=
 Definition str_drop : bytes := [100;114;111;112].       (* "drop" *)
 Definition str_cfgerr : bytes := [99;102;103;101;114;114]. (* "cfgerr" *)
 
+Definition str_seq : bytes := [115;101;113].               (* "seq" *)
+
 Definition show_counters (c : counters) : bytes :=
   join comma (map dec_N [passed_n c; passed_bytes c; dropped_n c; dropped_bytes c; overflow_n c; overflow_bytes c]).
 
@@ -261,6 +277,14 @@ Definition run_case_C09 (c : case) : bytes :=
   let mm := Z.to_N (zarg c 0) in
   let mr := Z.to_N (zarg c 1) in
   match c_kind c with
+  | 2 =>
+    match new_parser mm mr [] with
+    | Ok cfg =>
+      let table := (sarg c 0 ++ repeat_app (sarg c 1) (Z.to_nat (zarg c 3)) (sarg c 2)) :: skipn 3 (c_sargs c) in
+      let msgs := map (fun i => nth (Z.to_nat i) table []) (skipn 4 (c_zargs c)) in
+      str_seq ++ colon :: join 47 (map (show_result true) (parse_stream cfg counters_zero msgs))
+    | _ => str_cfgerr
+    end
   | 0 =>
     match new_parser mm mr (tl (c_sargs c)) with
     | Ok cfg => show_result false (parse cfg counters_zero (sarg c 0))
